@@ -7,7 +7,7 @@
    whose channels the reader holds, and always hands out the current revision of a document in a held channel.
    NOT a theorem: that every endpoint and flag combination answers through that decision
    ([C02_full_statement] below) -- that is what the enumeration harness checks on the real REST / BLIP surfaces. *)
-From SG Require Import Base.Prelude C02.Auth C02.AuthProofs C02.ReadDecision C02.ReadProofs C02.GateProofs.
+From SG Require Import Base.Prelude C02.Auth C02.AuthProofs C02.ReadDecision C02.ReadProofs C02.GateProofs C02.Kinds C02.KindsProofs.
 Open Scope N_scope.
 
 (* ---------------- who can see a channel set ---------------- *)
@@ -135,14 +135,12 @@ Theorem C02_alldocs_keys_forbidden : forall named nwe u rv f,
 Proof. exact alldocs_keys_hides. Qed.
 Print Assumptions C02_alldocs_keys_forbidden.
 
-(* whatever the flags and whoever the reader, an invisible document's row never carries content; the only row
-   that is not empty / 403 arises for a wildcard held through a role, in the default collection, for a document
-   without channels (authorizeAnyChannel consults only the user's own "*" for the empty set) *)
+(* whatever the flags and whoever the reader, an invisible document's row never carries anything: it is absent,
+   or a 403 row when asked for by key (before /repo a58a51d the default collection had a third case: a wildcard
+   held through a role and a document without channels) *)
 Theorem C02_alldocs_invisible_never_content : forall named nwe u rv f,
   can_see_any named u (rv_chans rv) = false ->
-  alldocs_row named nwe u rv f = NoRow \/ alldocs_row named nwe u rv f = RowErr 403 \/
-  (exists chs, (alldocs_row named nwe u rv f = RowMeta chs \/ alldocs_row named nwe u rv f = RowDoc [] [] chs) /\
-     has_star u = true /\ rv_chans rv = [] /\ nwe = false /\ named = false).
+  alldocs_row named nwe u rv f = NoRow \/ alldocs_row named nwe u rv f = RowErr 403.
 Proof. exact alldocs_listing_invisible_never_doc. Qed.
 Print Assumptions C02_alldocs_invisible_never_content.
 
@@ -197,6 +195,122 @@ Proof.
 Qed.
 Print Assumptions C02_attachment_gate_only_sent.
 
+(* ---------------- the channel decision, every set; the two kinds of collection ---------------- *)
+
+(* every channel set, the empty one included: some channel of the set is held, or "*" is (directly or through a role) *)
+Theorem C02_can_see_any_full_spec : forall named u cs,
+  can_see_any named u cs = true <-> (exists c, In c cs /\ In c (effective u)) \/ In star (effective u).
+Proof. exact can_see_any_spec. Qed.
+Print Assumptions C02_can_see_any_full_spec.
+
+(* the default collection (authorizeAnyChannel) and a named collection (AuthorizeAnyCollectionChannel) decide alike *)
+Theorem C02_collections_agree : forall u cs, can_see_any true u cs = can_see_any false u cs.
+Proof. exact named_default_agree. Qed.
+Print Assumptions C02_collections_agree.
+
+(* ---------------- every request kind (Kinds.v) ---------------- *)
+(* [kind] enumerates the ways a reader can ask about one document: GET (current / by revision, with ancestry), an
+   entry of _bulk_get, open_revs (all / list), an attachment, the _all_docs row, the doc member of a changes entry,
+   a pulled rev / norev, getRev, _revs_diff, the reply to a BLIP changes / proposeChanges message, a delta.
+   [authorised] is defined once: the reader holds a channel ASSIGNED to the revision (or "*"); [faithful]: the
+   revision cache reports exactly the assigned channels (C02_Refuted.v: the known backup-stamping finding is the
+   exact way this fails).  [doc_sim]: two documents with the same revision tree and revision metadata that agree on
+   the contents of every revision the reader is authorised for. *)
+
+(* the response of EVERY kind is the same for two such documents: nothing of a revision the reader is not
+   authorised for -- body, attachment names, digests -- influences any answer.  For a delta this needs the reader to
+   be authorised for the SOURCE revision; without that it is false for the unchanged code
+   (C02_delta_noninterference_refuted, a genuine defect) *)
+Theorem C02_no_disclosure_all_kinds : forall named u k od od',
+  odoc_sim named u od od' -> delta_source_ok named u k od ->
+  respond named u k od = respond named u k od'.
+Proof. exact respond_noninterference. Qed.
+Print Assumptions C02_no_disclosure_all_kinds.
+
+(* every answer of every kind that carries content is about a revision the reader is authorised for and carries
+   that revision's own body and attachment list *)
+Theorem C02_content_only_from_authorised : forall named u k d a r b at' dl h,
+  faithful d -> In a (answers (respond named u k (Some d))) -> a = AFull r b at' dl h ->
+  exists n, In n (d_nodes d) /\ n_id n = r /\ authorised named u n = true /\
+            rv_body (n_rev n) = Some b /\ rv_atts (n_rev n) = at'.
+Proof. exact content_only_from_authorised. Qed.
+Print Assumptions C02_content_only_from_authorised.
+
+(* removal / tombstone shapes, all kinds: whatever is answered about a revision the reader is NOT authorised for is
+   a bare stub -- revision id, deleted flag, ancestry -- with no body field and no attachment *)
+Theorem C02_removed_stub_has_no_body : forall named u k d a r n,
+  faithful d -> In a (answers (respond named u k (Some d))) -> answer_rid a = Some r ->
+  find_node d r = Some n -> authorised named u n = false ->
+  exists h, a = AStub r (rv_deleted (n_rev n)) h.
+Proof. exact removed_stub_has_no_body. Qed.
+Print Assumptions C02_removed_stub_has_no_body.
+
+(* ... and a stub is only ever the answer to a request that names the revision *)
+Theorem C02_stub_only_by_revision : forall named u d revs r dl h,
+  get_answer named u (Some d) None revs <> AStub r dl h.
+Proof. exact stub_only_by_revision. Qed.
+Print Assumptions C02_stub_only_by_revision.
+
+Theorem C02_attachment_only_from_authorised : forall named u d rev name dig,
+  faithful d -> att_answer named u (Some d) rev name = AttData dig ->
+  exists n, In n (d_nodes d) /\ authorised named u n = true /\ In (name, dig) (rv_atts (n_rev n)).
+Proof. exact attachment_only_from_authorised. Qed.
+Print Assumptions C02_attachment_only_from_authorised.
+
+(* a delta is computed only towards a target the reader is authorised for *)
+Theorem C02_delta_target_authorised : forall named u d from to g a sa ta,
+  faithful d -> delta named u (Some d) from to = DDelta g a sa ta ->
+  exists t, find_node d to = Some t /\ authorised named u t = true.
+Proof. exact delta_target_authorised. Qed.
+Print Assumptions C02_delta_target_authorised.
+
+(* a listing answers for a document whose current revision the reader is not authorised for exactly as if the
+   document did not exist (requests that NAME a document do not: C02_point_requests_hide_existence_refuted) *)
+Theorem C02_listing_hides_existence : forall named u k d n,
+  listing k = true -> faithful d -> cur_node d = Some n -> authorised named u n = false ->
+  respond named u k (Some d) = respond named u k None.
+Proof. exact listing_hides_existence. Qed.
+Print Assumptions C02_listing_hides_existence.
+
+(* _revs_diff, the reply to a changes message, the reply to proposeChanges: no authorisation -- the same for every
+   reader -- and a function of the SHAPE of the revision tree only (ids, parents, leaves, current revision,
+   whether it is a tombstone): no body, attachment or channel can influence them *)
+Theorem C02_negotiation_ignores_reader_and_content : forall named named' u u' k d d',
+  negotiation k = true -> same_shape d d' -> respond named u k (Some d) = respond named' u' k (Some d').
+Proof. exact negotiation_ignores_reader_and_content. Qed.
+Print Assumptions C02_negotiation_ignores_reader_and_content.
+
+(* what _revs_diff hands out: asked ids that are unknown, and ids of leaves or of parents of leaves *)
+Theorem C02_revs_diff_discloses : forall d asked m p,
+  revs_diff (Some d) asked = (m, p) ->
+  (forall r, In r m -> In r asked /\ in_tree d r = false) /\
+  (forall r, In r p -> exists l, In l (d_nodes d) /\ n_leaf l = true /\ (r = n_id l \/ n_parent l = Some r)).
+Proof. exact revs_diff_discloses. Qed.
+Print Assumptions C02_revs_diff_discloses.
+
+(* completeness over the kinds: the live current revision of a document in a held channel is delivered by GET,
+   getRev and the pull *)
+Theorem C02_kinds_complete : forall named u d n b revs,
+  faithful d -> cur_node d = Some n -> authorised named u n = true ->
+  rv_body (n_rev n) = Some b -> rv_removed (n_rev n) = false -> rv_deleted (n_rev n) = false ->
+  respond named u (KGet None revs) (Some d) = ROne (AFull (d_cur d) b (rv_atts (n_rev n)) false (if revs then history d (d_cur d) else [])) /\
+  respond named u KGetRev (Some d) = ROne (AFull (d_cur d) b (rv_atts (n_rev n)) false []) /\
+  respond named u (KBlipRev (d_cur d)) (Some d) = ROne (AFull (d_cur d) b (rv_atts (n_rev n)) false (history d (d_cur d))).
+Proof. exact kinds_complete. Qed.
+Print Assumptions C02_kinds_complete.
+
+(* proveAttachment on every trace of a connection: a proof is handed out only for an attachment of an outstanding
+   rev message of a visible revision -- or for a LEGACY attachment, to anybody (a genuine defect:
+   C02_prove_needs_visible_revision_refuted) *)
+Theorem C02_prove_attachment_gate : forall named u pre v3 legacy k,
+  let c := fst (gate_run named u conn0 pre) in
+  prove_serves v3 (c_gate c) legacy k = true ->
+  In k legacy \/
+  (v3 = false /\ exists rv, In rv (c_out c) /\ In k (att_keys (rv_atts rv)) /\
+                           can_see_any named u (rv_chans rv) = true /\ rv_removed rv = false /\ rv_body rv <> None).
+Proof. exact prove_gate. Qed.
+Print Assumptions C02_prove_attachment_gate.
+
 (* ---------------- non-vacuity ---------------- *)
 (* a user holding channel 2 through a role; a revision in channel 3 only (invisible: stub / forbidden, listing
    empty), one in channels 2,3 (visible: body), a gate trace that serves and then refuses *)
@@ -214,3 +328,21 @@ Example C02_nonvacuous :
   snd (gate_run true u conn0 [PSend hidden; PGet 9; PSend shown; PGet 10; PGet 9; PReply 1; PGet 10]) =
     [None; Some false; None; Some true; Some false; None; Some false].
 Proof. vm_compute. repeat split; reflexivity. Qed.
+
+(* the kinds: reader holding channel 2; document with a hidden first revision (channel 3, property 7) and a visible
+   current one (channel 2, property 8).  By revision the hidden one is a bare stub with its ancestry, the current one
+   is delivered; _revs_diff names the leaf whoever asks; the delta against the hidden source names its property 7 *)
+Example C02_kinds_nonvacuous :
+  let u := mkUser (mkRole [2] []) [] in
+  let d := mkDoc [mkNode (1, 1) None false (mkRev [3] false false (Some [7]) [(1, 9)]) [3];
+                  mkNode (2, 2) (Some (1, 1)) true (mkRev [2] false false (Some [8]) []) [2]] (2, 2) in
+  faithful d /\
+  respond true u (KGet (Some (1, 1)) true) (Some d) = ROne (AStub (1, 1) false [(1, 1)]) /\
+  respond true u (KGet None true) (Some d) = ROne (AFull (2, 2) [8] [] false [(2, 2); (1, 1)]) /\
+  respond true u (KOpenRevs None false) (Some d) = RMany (Some [((2, 2), Some (AFull (2, 2) [8] [] false []))]) /\
+  respond true u (KAtt (Some (1, 1)) 1) (Some d) = RAtt (AttErr 404) /\
+  respond true u (KRevsDiff [(3, 5)]) (Some d) = RDiff [(3, 5)] [(2, 2)] /\
+  respond true u (KPropose (3, 5) (Some (1, 1)) true) (Some d) = RStatus 409 (Some (2, 2)) /\
+  respond true u (KDelta (1, 1) (2, 2)) (Some d) = RDelta (DDelta [7] [8] [(1, 9)] []) /\
+  delta_repaired true u (Some d) (1, 1) (2, 2) = DNil.
+Proof. split; [intros n [E|[E|[]]]; subst n; reflexivity | vm_compute; repeat split; reflexivity]. Qed.
